@@ -4,14 +4,17 @@
 // interfile.cxx, MultipleDataSetHeader.cxx, ...) so that the library code itself is instrumented.
 //
 // Targets:  keyparser (KeyParser::parse on a probe table), image (read_interfile_image), pdfs (read_interfile_PDFS),
-//           multi (MultipleDataSetHeader).
+//           multi (MultipleDataSetHeader), dynimage (read_interfile_dynamic_image).
 // Inputs:   a seeded corpus written under <workdir> by the library itself (Interfile image and projection-data headers
 //           + data, a multi-file header, the sample SPECT / Siemens headers shipped with STIR) and grammar-aware mutations:
 //           value replacement incl. huge / negative sizes, index changes, line deletion / duplication / swap, keyword damage,
-//           truncation at EVERY line and at sampled bytes.
+//           truncation at EVERY line and at sampled bytes; plus the structured family "exactly ONE size-bearing field
+//           inconsistent" (structured_inputs): such a header must be rejected, its consistent counterpart accepted.
 // Every input must either be rejected (exception, null pointer, parse()==false) or produce an object whose sizes agree
-// with its header and data file.  A sanitizer report, a crash, an allocation above the cap, or a time-out is a finding.
-// Each batch of inputs runs in a forked child; the parent learns from a progress pipe which input killed the child.
+// with its header and data file (for PET projection data and images: with an independent strict reading of the sizes and
+// lists in the header text, scan_facts).  A sanitizer report, a crash, an allocation above the cap, or a time-out is a finding.
+// Each batch of inputs runs in a forked child; its supervisor learns from a progress pipe which input killed the child.
+// Eight supervisors work on contiguous slices of the input list in parallel.
 //
 // Usage: c17_fuzz run <seed> <quick|thorough> <workdir> <resultfile>
 //        c17_fuzz one <target> <workdir> <inputfile> [<expectation>]       (replay of one input, in-process, no fork)
@@ -32,6 +35,8 @@
 #include "stir/ProjDataInfoCylindrical.h"
 #include "stir/SegmentByView.h"
 #include "stir/VoxelsOnCartesianGrid.h"
+#include "stir/DynamicDiscretisedDensity.h"
+#include "stir/TimeFrameDefinitions.h"
 #include "stir/ExamInfo.h"
 #include "stir/TextWriter.h"
 #include "stir/Succeeded.h"
@@ -361,9 +366,10 @@ enum Target
   T_IMAGE,
   T_PDFS,
   T_MULTI,
+  T_DYNIMAGE,
   T_COUNT
 };
-static const char* target_name[] = { "keyparser", "image", "pdfs", "multi" };
+static const char* target_name[] = { "keyparser", "image", "pdfs", "multi", "dynimage" };
 
 struct ProbeParser : public KeyParser
 {
@@ -544,8 +550,14 @@ image_facts_check(const std::string& text, const VoxelsOnCartesianGrid<float>& i
                + "]' gives " + f.raw("matrix size", d);
       (void)n;
     }
-  if (f.has("matrix size", 4) || f.has("matrix size", 5))
-    return "header gives a 'matrix size [4]' but a 3D image was returned";
+  for (int d = 4; d <= 5; ++d)
+    {
+      // (a line whose value is not a number / list "has no value" for the library and is skipped: not a contradiction)
+      std::vector<long> l;
+      Facts g = f;
+      if (g.list("matrix size", d, l) && g.clean && !l.empty())
+        return "header gives a 'matrix size [" + std::to_string(d) + "]' but a 3D image was returned";
+    }
   return "";
 }
 
@@ -663,6 +675,62 @@ run_target(Target t, const std::string& text, const std::string& workdir, bool f
                 return "inconsistent accepted with an empty file name";
             return "accepted " + std::to_string(n) + " data sets";
           }
+          case T_DYNIMAGE: {
+            std::unique_ptr<DynamicDiscretisedDensity> dyn(read_interfile_dynamic_image(in, workdir));
+            if (!dyn)
+              return "rejected null";
+            InterfileImageHeader hdr;
+            std::istringstream in2(text);
+            if (!hdr.parse(in2))
+              return "inconsistent dynamic image returned but the header alone does not parse";
+            const long nframes = static_cast<long>(dyn->get_num_time_frames());
+            if (nframes < 1) // a header without any time-frame information (e.g. truncated before it): an empty dynamic image, nothing was read
+              return "accepted-empty dynamic image with 0 time frames";
+            long nx = 0, ny = 0, nz = 0;
+            for (long fr = 1; fr <= nframes; ++fr)
+              {
+                const VoxelsOnCartesianGrid<float>& v = dynamic_cast<const VoxelsOnCartesianGrid<float>&>(dyn->get_density(static_cast<unsigned>(fr)));
+                nx = v.get_x_size(), ny = v.get_y_size(), nz = v.get_z_size();
+                if (nx != hdr.matrix_size[0][0] || ny != hdr.matrix_size[1][0] || nz != hdr.matrix_size[2][0])
+                  return "inconsistent sizes of frame " + std::to_string(fr) + " differ from 'matrix size' of the header";
+              }
+            const long frame_bytes = nx * ny * nz * static_cast<long>(hdr.type_of_numbers.size_in_bytes());
+            const long have = std::max(file_size(workdir + "/" + hdr.data_file_name), file_size(hdr.data_file_name));
+            long first_offset = -1;
+            for (long fr = 0; fr < nframes && fr < static_cast<long>(hdr.data_offset_each_dataset.size()); ++fr)
+              {
+                const long off = static_cast<long>(hdr.data_offset_each_dataset[fr]);
+                if (off + frame_bytes > have)
+                  return "inconsistent dynamic image accepted but frame " + std::to_string(fr + 1) + " lies at bytes " + std::to_string(off) + ".." + std::to_string(off + frame_bytes)
+                         + " of a data file of " + std::to_string(have) + " bytes";
+                first_offset = first_offset < 0 ? off : std::min(first_offset, off);
+              }
+            // frames for which the header gives no 'data offset in bytes[frame]': they can only follow the previous frame in the file,
+            // so the file has to be long enough for all declared frames (else the frame has no data of its own: read from offset 0 again)
+            if (facts)
+              {
+                Facts f = scan_facts(text);
+                bool offset_missing = false;
+                for (long fr = 2; fr <= nframes; ++fr)
+                  if (!f.has("data offset in bytes", static_cast<int>(fr)))
+                    offset_missing = true;
+                if (f.clean && offset_missing && std::max(0L, first_offset) + nframes * frame_bytes > have)
+                  return "inconsistent {dynimage:more-time-frames-declared-than-data-in-file} dynamic image accepted with " + std::to_string(nframes) + " time frames of "
+                         + std::to_string(frame_bytes) + " bytes, but the data file has " + std::to_string(have)
+                         + " bytes: a frame without a 'data offset in bytes' is read from offset 0 again";
+              }
+            if (facts)
+              {
+                Facts f = scan_facts(text);
+                long declared = 0;
+                if (f.clean && f.scalar("number of time frames", 0, declared) && f.clean && declared != nframes)
+                  return "inconsistent header says 'number of time frames := " + std::to_string(declared) + "', the dynamic image has " + std::to_string(nframes);
+                const std::string why = image_facts_check(text, dynamic_cast<const VoxelsOnCartesianGrid<float>&>(dyn->get_density(1)));
+                if (!why.empty())
+                  return "inconsistent " + why;
+              }
+            return "accepted " + std::to_string(nframes) + " frames of " + std::to_string(nx) + "x" + std::to_string(ny) + "x" + std::to_string(nz);
+          }
         default:
           return "rejected";
         }
@@ -732,6 +800,31 @@ make_corpus(const std::string& workdir, vh::Rng& rng)
   catch (std::exception& e)
     {
       std::fprintf(stderr, "corpus: %s\n", e.what());
+    }
+  try
+    {
+      shared_ptr<Scanner> scanner = vh::make_scanner(16, 3);
+      shared_ptr<ProjDataInfo> pdi = vh::make_pdi(scanner, 1, 2, 8, 7, false, 0);
+      shared_ptr<VoxelsOnCartesianGrid<float>> image = vh::make_image(*pdi, 1.F, rng.range(3, 7), rng.range(2, 4));
+      image->fill(1.F);
+      const int nframes = rng.range(2, 4);
+      std::vector<std::pair<double, double>> frames;
+      double t = 0;
+      for (int k = 0; k < nframes; ++k)
+        {
+          const double d = 30. * (k + 1);
+          frames.push_back(std::make_pair(t, t + d));
+          t += d;
+        }
+      DynamicDiscretisedDensity dyn(TimeFrameDefinitions(frames), 0., scanner, image);
+      for (int k = 1; k <= nframes; ++k)
+        dyn.get_density(k).fill(static_cast<float>(k));
+      if (write_basic_interfile(workdir + "/dyn_0", dyn) == Succeeded::yes)
+        seeds.push_back({ T_DYNIMAGE, "dyn_0", slurp(workdir + "/dyn_0.hv") });
+    }
+  catch (std::exception& e)
+    {
+      std::fprintf(stderr, "corpus (dynamic image): %s\n", e.what());
     }
   // the data file names written by the library may be absolute or relative: keep as written
   seeds.push_back({ T_MULTI, "multi", "Multi :=\n  total number of data sets := 2\n  data set[1] := pd_0.hs\n  data set[2] := pd_1.hs\nend :=\n" });
@@ -1203,9 +1296,36 @@ structured_inputs(const Seed& seed, vh::Rng& rng)
   if (lines.size() < 4 || !f.clean)
     return out;
   const bool pet_pd = seed.t == T_PDFS && seed.name.compare(0, 3, "pd_") == 0;
-  const bool image = seed.t == T_IMAGE;
+  const bool dynimage = seed.t == T_DYNIMAGE;
+  const bool image = seed.t == T_IMAGE || dynimage;
   if (pet_pd || image)
     out.push_back({ seed.text, "must-accept the header as written by the library" });
+  if (dynimage)
+    {
+      // the number of time frames against the per-frame keys that the header gives
+      long nf = 0;
+      const int lf = find_key_line(lines, "number of time frames", 0);
+      if (lf >= 0 && f.scalar("number of time frames", 0, nf))
+        {
+          for (long d : { -2L, -1L })
+            if (nf + d >= 1)
+              out.push_back({ with_line(lf, key_part(lf) + std::to_string(nf + d)),
+                              "must-reject 'number of time frames := " + std::to_string(nf + d) + "' but per-frame keys are given for " + std::to_string(nf) + " frames" });
+          for (long d : { 1L, 2L })
+            out.push_back({ with_line(lf, key_part(lf) + std::to_string(nf + d)),
+                            "must-reject 'number of time frames := " + std::to_string(nf + d) + "' but per-frame keys and data are there for " + std::to_string(nf) + " frames only" });
+          // one per-frame line missing / its offset beyond the end of the data
+          for (const char* k : { "data offset in bytes", "image duration (sec)", "image relative start time (sec)" })
+            {
+              const int li = find_key_line(lines, k, static_cast<int>(nf));
+              if (li < 0)
+                continue;
+              if (std::string(k) == "data offset in bytes")
+                for (const char* v : { "100000000", "4294967296", "-1" })
+                  out.push_back({ with_line(li, key_part(li) + v), std::string("must-reject the data offset of the last frame is ") + v + ": beyond the end of the data file" });
+            }
+        }
+    }
   long ndim = 0;
   f.scalar("number of dimensions", 0, ndim);
 
@@ -1358,7 +1478,8 @@ apply_expectation(const std::string& expect, const std::string& verdict)
 {
   if (expect.empty() || verdict.compare(0, 12, "inconsistent") == 0)
     return verdict;
-  const bool accepted = verdict.compare(0, 8, "accepted") == 0 && verdict.compare(0, 16, "accepted-lazily-") != 0 && verdict.compare(0, 13, "accepted-but-") != 0;
+  const bool accepted = verdict.compare(0, 8, "accepted") == 0 && verdict.compare(0, 16, "accepted-lazily-") != 0 && verdict.compare(0, 13, "accepted-but-") != 0
+                        && verdict.compare(0, 14, "accepted-empty") != 0;
   const bool rejected = verdict.compare(0, 8, "rejected") == 0;
   if (expect.compare(0, 11, "must-reject") == 0 && accepted)
     return "inconsistent accepted a header with exactly one inconsistent size-bearing field:" + expect.substr(11) + " (" + verdict + ")";
@@ -1456,10 +1577,10 @@ main(int argc, char** argv)
     }
   for (const Seed& s : seeds)
     {
-      const int nrandom = thorough ? 6000 : (s.t == T_KEYPARSER ? 400 : 350);
+      const int nrandom = thorough ? 8000 : (s.t == T_KEYPARSER ? 800 : 700);
       const int nbytes = thorough ? 400 : 30;
       // the facts oracle is for headers whose reading is unambiguous: PET projection data and images (not the SPECT / Siemens samples)
-      const bool facts = (s.t == T_PDFS && s.name.compare(0, 3, "pd_") == 0) || s.t == T_IMAGE;
+      const bool facts = (s.t == T_PDFS && s.name.compare(0, 3, "pd_") == 0) || s.t == T_IMAGE || s.t == T_DYNIMAGE;
       for (const Structured& st : structured_inputs(s, rng))
         work.push_back({ s.t, s.name, st.text, st.expect, facts });
       for (const std::string& text : inputs_for_seed(s, rng, nrandom, nbytes))
